@@ -176,6 +176,13 @@ Section Model.
        WGMAX := upd_stage o WGMAX_ (WGMAX s);
        kc := upd_stage o KC_ (kc s) |}.
 
+  (* :68 the override is addressed to one crop parameter file: CropFile must EQUAL the base name of the
+     file just read (filepath.Base: the part after the last '/'); any other crop of the rotation is untouched *)
+  Definition base_name (path : lstr) : lstr := last (split_on "/"%char path) [].
+  Definition applies_to (target file : lstr) : bool := lstr_eqb target (base_name file).
+  Definition apply_to (cont : bool) (target : lstr) (o : cropow) (file : lstr) (s : crop_state T) : crop_state T :=
+    if applies_to target file then apply cont o s else s.
+
   (* ---- the same edit in the decoded YAML record ---- *)
   Definition edit_stage (o : cropow) (i : nat) (st : stage_rec T) : stage_rec T :=
     let k := Z.of_nat i + 1 in
